@@ -18,7 +18,16 @@ class C20(core.Check):
             '(1-7 calls of tune/predict/save/load on a GBDT subclass with trivial hooks, and predict/save on fresh '
             'XGBoost/CatBoost/LightGBM objects). Non-trivial: a conversion that returns a matrix with >=1 cell, a '
             'metric on >=1 element, a history with >=1 guarded call; distinct = distinct case hash. Every run also '
-            'enumerates all (class, task, metric|None) constructor calls')
+            'enumerates all (class, task, metric|None) constructor calls. Hardening families: float64 numerical / '
+            'embedding / target tensors with float64-only payloads (0.1, 2^24+1, 1700000001, 1e39, 5e-324), float32 edge '
+            'payloads (-1.0 as a legal value, -0.0, 2^24+2, +-2^127, +-inf), int8/16/32 categorical tensors, category '
+            'indices up to 70 000 (and > 2^24 for CatBoost / LightGBM), targets in bool / uint8 / int16 / int32; frames cut '
+            'out of a longer frame by an index tensor / a slice, column-major storage; ONE adapter object converting '
+            'other frames before and same-shaped frames after the observed one, the result read after the last call; '
+            'metric arguments in integer / bool dtypes, as strided views of one buffer, the same call repeated; guard '
+            'histories of up to 4 097 calls with a late first fit, failing loads, another object of the class fitted '
+            'meanwhile, all three task types; 2% scale cases from the stress ladder (rows up to 65 537, columns per '
+            'stype, embedding width, vector length)')
     partial_notes = (
         'ROC-AUC and R2 are delegated to scikit-learn (not installed): the model marks them external, no theorem '
         'and no comparison covers their value',
@@ -40,20 +49,48 @@ class C20(core.Check):
 
     # ------------------------------------------------------------------ generation
     def generate(self, rng, n, tier):
+        budget = {0: 1.0e6, 1: 6.0e6, 2: 1.0e7}[self.level]      # volume (matrix cells / vector entries / calls) of the scale cases
         for _ in range(n):
             r = rng.random()
             if r < 0.55:
-                yield {'kind': 'convert', 'lib': rng.choice(gbdt.LIBS), 'frame': gbdt.gen_frame(rng)}
+                lib = rng.choice(gbdt.LIBS)
+                case = None
+                if rng.random() < 0.02:
+                    fr = gbdt.gen_scale_frame(rng, self.level, lib)
+                    vol = max(fr['R'], 1) * max(gbdt.expected_width(fr), 1)
+                    if vol <= budget:
+                        budget -= vol
+                        case = {'kind': 'convert', 'lib': lib, 'frame': fr}
+                if case is None:
+                    case = {'kind': 'convert', 'lib': lib, 'frame': gbdt.gen_frame(rng, self.level, None, lib)}
+                fr = case['frame']
+                if rng.random() < 0.3 and fr['R'] <= 300:
+                    # history on ONE adapter object: other frames are converted before / after the observed one; the
+                    # observed result is read only after the last conversion
+                    case['before'] = [gbdt.gen_frame(rng, self.level, None, lib) for _ in range(rng.randint(0, 2))]
+                    case['after'] = [gbdt.twin_frame(rng, fr) for _ in range(rng.randint(1, 2))]
+                yield case
             elif r < 0.85:
-                c = gbdt.gen_metric(rng)
+                c = gbdt.gen_metric(rng, self.level)
+                if len(c['pred']) > 16:
+                    if len(c['pred']) * 4 > budget:
+                        c = gbdt.gen_metric(rng, -1)
+                    else:
+                        budget -= len(c['pred']) * 4
                 c['kind'] = 'metric'
                 yield c
             else:
                 cls = rng.choice(['stub', 'stub', 'stub', 'XGBoost', 'CatBoost', 'LightGBM'])
-                ops = gbdt.gen_ops(rng)
+                ops = gbdt.gen_ops(rng, self.level)
+                if len(ops) > 16:
+                    if len(ops) * 20 > budget:
+                        ops = ops[:7]
+                    else:
+                        budget -= len(ops) * 20
                 if cls != 'stub':       # the hooks of the real adapters need the third-party packages
-                    ops = [o for o in ops if o['op'] in ('predict', 'save')] or [{'op': 'predict'}]
-                yield {'kind': 'guards', 'cls': cls, 'ops': ops}
+                    ops = [o for o in ops if o['op'] in ('predict', 'save', 'other_tune')] or [{'op': 'predict'}]
+                yield {'kind': 'guards', 'cls': cls, 'ops': ops,
+                       'task': rng.choice(['regression', 'regression', 'binary_classification', 'multiclass_classification'])}
 
     # ------------------------------------------------------------------ the real code
     def real(self, case):
@@ -66,7 +103,19 @@ class C20(core.Check):
             snap = {k: (v.clone() if isinstance(v, torch.Tensor) else v.values.clone())
                     for k, v in tf.feat_dict.items() if not isinstance(v, dict)}
             try:
-                out = gbdt.run_adapter(case['lib'], tf)
+                obj = gbdt.new_adapter(case['lib'])
+                for f0 in case.get('before', []):
+                    try:
+                        gbdt.convert_raw(obj, case['lib'], gbdt.build_frame(f0))
+                    except Exception:  # noqa  (a frame with none of the three stypes is rejected)
+                        pass
+                raw = gbdt.convert_raw(obj, case['lib'], tf)
+                early = gbdt.canon_converted(case['lib'], raw) if case.get('after') else None
+                for f1 in case.get('after', []):
+                    gbdt.convert_raw(obj, case['lib'], gbdt.build_frame(f1))
+                out = gbdt.canon_converted(case['lib'], raw)
+                if early is not None and early != out:
+                    out['changed_by_later_call'] = True
             except Exception as e:  # noqa
                 self._last_exc = f'{type(e).__name__}: {e}'
                 return 'raises'
@@ -79,14 +128,26 @@ class C20(core.Check):
             return out
         if case['kind'] == 'metric':
             obj = g.GBDT(TaskType(case['task']), metric=Metric(case['metric']))
-            dt = torch.float64
+            tdt = getattr(torch, case.get('target_dt', 'float64'))
+            pdt = getattr(torch, case.get('pred_dt', 'float64'))
             try:
-                s = obj.compute_metric(torch.tensor(case['target'], dtype=dt), torch.tensor(case['pred'], dtype=dt))
+                target, pred = torch.tensor(case['target'], dtype=tdt), torch.tensor(case['pred'], dtype=pdt)
+                if case.get('view') and len(case['target']) == len(case['pred']):      # strided views of one buffer
+                    both = torch.stack([target.double(), pred.double()], dim=1)
+                    target = both[:, 0] if tdt == torch.float64 else target
+                    pred = both[:, 1] if pdt == torch.float64 else pred
+                t0, p0 = target.clone(), pred.clone()
+                s = obj.compute_metric(target, pred)
+                if not (torch.equal(t0, target) and torch.equal(p0, pred)):
+                    return {'ok': float(s), 'modified': True}
+                for _ in range(case.get('repeat', 0)):       # the same call again on the same object
+                    if float(obj.compute_metric(target, pred)) != float(s):
+                        return {'ok': float(s), 'unstable': True}
             except Exception as e:  # noqa
                 self._last_exc = f'{type(e).__name__}: {e}'
                 return 'raises'
             return {'ok': float(s)}
-        return gbdt.run_ops(case['cls'], case['ops'])
+        return gbdt.run_ops(case['cls'], case['ops'], case.get('task', 'regression'))
 
     # ------------------------------------------------------------------ the model
     def model_requests(self, case):
@@ -96,7 +157,7 @@ class C20(core.Check):
             return [{'cmd': 'metric', 'task': case['task'], 'metric': case['metric'],
                      'target': [gbdt.fbits(v) for v in case['target']],
                      'pred': [gbdt.fbits(v) for v in case['pred']]}]
-        return [{'cmd': 'guards', 'ops': case['ops']}]
+        return [{'cmd': 'guards', 'ops': [o for o in case['ops'] if not o['op'].startswith('other_')]}]
 
     def model_outcome(self, case, replies):
         r = replies[0]
@@ -177,6 +238,9 @@ class C20(core.Check):
             if 'modified' in real:
                 return core.Violation(f'convert/{lib}/source-modified', 'the conversion modified the frame '
                                       f'({real["modified"]})', case)
+            if real.get('changed_by_later_call'):
+                return core.Violation(f'convert/{lib}/result-changed-by-later-call', 'the converted table reads '
+                                      'differently after a later conversion on the same adapter object', case)
             return None
         if kind == 'metric':
             exp = gbdt.textbook_metric(case)
@@ -185,12 +249,15 @@ class C20(core.Check):
             if real == 'raises':
                 return core.Violation(f'metric/{case["metric"]}/raises-in-domain',
                                       f'compute_metric raised: {getattr(self, "_last_exc", "")}', case, exp, 'raises')
+            if real.get('modified') or real.get('unstable'):
+                return core.Violation(f'metric/{case["metric"]}/impure', 'compute_metric modified its arguments or '
+                                      'answers differently when called again', case, exp, real)
             if not (abs(real['ok'] - exp) <= 1e-9 * abs(exp) + 1e-12):
                 return core.Violation(f'metric/{case["task"]}/{case["metric"]}',
                                       f'{case["metric"]} differs from its textbook definition', case, exp, real['ok'])
             return None
         fitted = False
-        for i, (op, ok) in enumerate(zip(case['ops'], real['outcomes'])):
+        for i, (op, ok) in enumerate(zip([o for o in case['ops'] if not o['op'].startswith('other_')], real['outcomes'])):
             if op['op'] in ('predict', 'save'):
                 if ok != fitted:
                     return core.Violation(f'guards/{op["op"]}',
@@ -236,15 +303,64 @@ class C20(core.Check):
                 labs.append('no-missing-category')
             if fr['R'] == 0 and fr['emb'] is not None:
                 labs.append('zero-row-with-embedding')
+            labs[3] = f'rows:{min(fr["R"], 7)}'
+            W = gbdt.expected_width(fr)
+            for what, v in (('rows', fr['R']), ('width', W), ('categorical-columns', fr.get('cat_names', 0) if fr['cat'] is not None else 0),
+                            ('numerical-columns', fr.get('num_names', 0) if fr['num'] is not None else 0),
+                            ('embedding-columns', len(fr.get('emb_dims', [])) if fr['emb'] is not None else 0),
+                            ('embedding-dim', max(fr.get('emb_dims', [0])) if fr['emb'] is not None else 0)):
+                for th in (65537, 16385, 4097, 1025, 257, 17):
+                    if v >= th:
+                        labs.append(f'scale:{what}:{th}+')
+                        break
+            for k in ('cat_dt', 'num_dt', 'emb_dt'):
+                if fr.get(k):
+                    labs.append(f'dtype:{k[:3]}:{fr[k]}')
+            if fr['y'] and fr['y'].get('dt'):
+                labs.append(f'dtype:y:{fr["y"]["dt"]}')
+            if fr.get('via'):
+                labs.append(f'container:frame-via-{fr["via"]}')
+            if case.get('after'):
+                labs.append('alias:result-read-after-later-conversions')
+            if case.get('before'):
+                labs.append('history:adapter-object-reused')
+            flat = [v for row in (fr['num'] or [])[:500] for v in row] + \
+                   [v for col in (fr['emb'] or []) for cell in col[:500] for v in cell[:20]]
+            if any(v == -1.0 for v in flat if v is not None and not isinstance(v, str)):
+                labs.append('value:-1.0-in-a-float-column')
+            if any(isinstance(v, str) for v in flat):
+                labs.append('value:inf')
+            if any(v in gbdt.NUM_SPECIAL64 for v in flat if isinstance(v, float)):
+                labs.append('value:float64-only')
+            if fr['cat'] is not None and any(v > 2 ** 24 for row in fr['cat'][:500] for v in row):
+                labs.append('value:category-index>2^24')
         elif k == 'metric':
-            labs += [f'metric:{case["task"]}/{case["metric"]}', f'n:{len(case["target"])}',
+            n = len(case['target'])
+            labs += [f'metric:{case["task"]}/{case["metric"]}', f'n:{n if n <= 12 else "13+"}',
                      'metric:raises' if real == 'raises' else 'metric:ok']
+            for th in (65537, 16385, 4097, 1025, 257, 17):
+                if n >= th:
+                    labs.append(f'scale:vector-length:{th}+')
+                    break
+            for k in ('target_dt', 'pred_dt'):
+                if case.get(k):
+                    labs.append(f'dtype:{k[:-3]}:{case[k]}')
+            if case.get('view'):
+                labs.append('alias:arguments-are-views-of-one-buffer')
+            if case.get('repeat'):
+                labs.append('history:metric-called-again')
             if case['task'] == 'binary_classification' and 0.5 in case['pred']:
                 labs.append('score-exactly-0.5')
         else:
-            labs += [f'cls:{case["cls"]}', f'calls:{len(case["ops"])}',
+            labs += [f'cls:{case["cls"]}', f'calls:{min(len(case["ops"]), 8)}', f'task:{case.get("task", "regression")}',
                      'ever-fitted' if real['fitted'] else 'never-fitted']
-            for op, ok in zip(case['ops'], real['outcomes']):
+            for th in (4097, 1025, 257, 17):
+                if len(case['ops']) >= th:
+                    labs.append(f'scale:calls:{th}+')
+                    break
+            if any(o['op'].startswith('other_') for o in case['ops']):
+                labs.append('history:another-object-of-the-class-fitted-meanwhile')
+            for op, ok in zip([o for o in case['ops'] if not o['op'].startswith('other_')], real['outcomes']):
                 labs.append(f'{op["op"]}:{"ok" if ok else "raises"}')
         return labs
 
